@@ -126,7 +126,7 @@ func escRef(s string) string {
 }
 
 func VerifC10Faults() {
-	templruntime.DefaultBufferSize = []int{16, 4096, 4}[symChoose(symParam("BUFS"))]
+	templruntime.DefaultBufferSize = []int{4, 4096, 16}[symChoose(symParam("BUFS"))]
 	items := symItems()
 	// the outermost component may be handed children from Go code
 	kid := symBool("kid")
@@ -174,7 +174,9 @@ func VerifC10Faults() {
 	} else {
 		err = Page(&faults{fail: fail}, items).Render(ctx, w)
 	}
-	symObserve("got", string(w.got))
+	// (the bytes received are not recorded as an observation: natively the pool may hand out a
+	// buffer allocated with another size by an earlier case, which changes where a write is cut -
+	// the assertions below hold for every buffer size)
 	symObserveBool("errnil", err == nil)
 	if err == nil {
 		symCover("ok")
